@@ -45,6 +45,11 @@ func genRawPart(r *rng, feats map[string]int) rawCase {
 	feats["raw part: prefix '"+pfx+"'"]++
 	ws := func() string { return []string{" ", " ", "\n  ", "\t", " \r\n"}[r.intn(5)] }
 	var b strings.Builder
+	if r.chance(12) {
+		// a byte order mark, as some producers write at the start of every part
+		b.WriteString("\xef\xbb\xbf")
+		feats["raw part: byte order mark"]++
+	}
 	switch r.intn(4) {
 	case 0:
 		b.WriteString(`<?xml version="1.0" encoding="UTF-8" standalone="yes"?>` + "\n")
